@@ -394,12 +394,18 @@ impl<'a> CaseRunner<'a> {
       "C09" => cons > 0 && incons > 0,
       "C17" => rec.events.iter().filter(|e| matches!(e, Ev::Trk(_))).count() >= 12,
       "C18" => rec.events.iter().any(|e| matches!(e, Ev::Check { verdict: Verdict::Err(_), .. })),
+      "C05" => rec.aborted.as_deref().map_or(false, |m| abort_kind(m) == "hidden-dependency"),
+      "C06" => rec.aborted.as_deref().map_or(false, |m| abort_kind(m) == "overlapping-write"),
+      "C07" => rec.aborted.as_deref().map_or(false, |m| abort_kind(m) == "cycle"),
       _ => reexec > 0,
     };
     if nt {
+      // one entry per distinct case (program + initial state + history), however many of its sessions qualify
+      let _ = extra;
       let mut h = Fnv::default();
-      h.u64(self.case.digest()); h.u64(self.step_no as u64); h.u64(extra);
+      h.u64(self.case.digest());
       self.rep.nontrivial(h.0);
+      self.rep.count("nontrivial_sessions");
     }
   }
 
